@@ -7,7 +7,7 @@ import random
 from pathlib import Path
 
 from vp import rlsched
-from vp.core import LEAN, Check, lean_run
+from vp.core import LEAN, Check, f2h, lean_run
 
 MODULE = "BlackIt.Properties.C10"
 PROP_FILE = LEAN / "BlackIt/Properties/C10.lean"
@@ -52,6 +52,15 @@ def expected_rewards(script, losses):
             else:
                 out[batch] = 0.0
     return out
+
+
+def loss_sequence(script, losses):
+    """(bootstrap loss, [minimum loss of every agent-chosen batch, in order]) of a scripted run"""
+    seq, li = [], 0
+    for n, fail in script:
+        for _ in range(n):
+            seq.append(losses[li % len(losses)]); li += 1
+    return (seq[0], seq[1:]) if seq else (None, [])
 
 
 def oracle(script, r, losses=None) -> list[str]:
@@ -144,7 +153,7 @@ def run(chk: Check):
         chk.count("losses:" + ("zero" if 0.0 in losses else "inf" if inf in losses else "negative" if min(losses) < 0 else "positive"))
         configs.append({"script": script, "losses": losses, "agent": rng.choice(["eps", "eps", "scripted"]), "agent_seed": rng.randrange(100),
                         "actions": [rng.randrange(2) for _ in range(5)]})
-    reqs, metas = [], []
+    reqs, metas, rew_reqs, rew_meta = [], [], [], []
     for ci, cfg in enumerate(configs):
         runs = []
         kinds = ["main_first", "agent_first", "alternate"] + ["random"] * (10 if chk.tier == "quick" else 30)
@@ -169,6 +178,14 @@ def run(chk: Check):
                 chk.fail(f"the sequence of samplers depends on thread timing: {ref[0]} vs {key[0]} for the same script and agent",
                          {"case": {"cfg": cfg, "moves": [int(m) for m in r["moves"]], "schedule": kind}})
             reqs.append(model_compare(chk, cfg, r)); metas.append((cfg, kind, r))
+            # the rewards the agent learned vs the model's scheduler -> environment chain (BlackIt.Bandit.runRewards), bit for bit
+            boot, seq = loss_sequence(cfg["script"], cfg["losses"])
+            if boot is not None and not r["deadlock"] and len(r["learned"]) == len(seq):
+                rew_reqs.append(f"bandit.rewards {f2h(boot)} {len(seq)} " + " ".join(f2h(x) for x in seq)); rew_meta.append((cfg, kind, [rw for (_, _, rw) in r["learned"]]))
+    for (cfg, kind, learned), ans in zip(rew_meta, lean_run(rew_reqs) if rew_reqs else []):
+        chk.count("rewards_vs_lean_model")
+        if " ".join(f2h(x) for x in learned) != ans:
+            chk.disagree("rewards learned by the agent != BlackIt.Bandit.runRewards of the run's loss sequence", {"cfg": cfg, "schedule": kind, "impl": [f2h(x) for x in learned], "model": ans})
     # exhaustive interleavings of the smallest scripts
     for script in ([(1, False)], [(2, False)], [(1, True)]) if chk.tier == "quick" else ([(1, False)], [(2, False)], [(1, True)], [(1, False), (1, False)], [(3, False)]):
         cfg = {"script": script, "losses": [4.0, 3.0, 2.0, 1.0], "agent": "scripted", "agent_seed": 0, "actions": [1, 0, 1]}
